@@ -545,6 +545,32 @@ def wrapper_history():
         w2 = cls(k1, wrap_latex=True, wrap_code=True)
         if w1.wrap_latex is not False or w1.wrap_code is not False:
             bad.append(f"{cls.__name__}(K) created without wrapping reports wrap flags {(w1.wrap_code, w1.wrap_latex)} after a wrapped twin was created")
+    # a wrapper is a dimensioned LEAF of a larger expression (quotients of differences, sums with the bare operand, exponents, nesting)
+    from symplyphysics.core.dimensions import collect_expression_and_dimension as infer
+    wrappers = [getattr(SY, n) for n in ("Average", "FiniteDifference", "ExactDifferential", "InexactDifferential") if hasattr(SY, n)]
+    x, t = Symbol("x", units.length), Symbol("t", units.time)
+    for cls in wrappers:
+        nm = cls.__name__
+        accept = [(f"{nm}(x)/{nm}(t)", lambda: cls(x) / cls(t), units.length / units.time), (f"{nm}(x) + x", lambda: cls(x) + x, units.length),
+                  (f"{nm}(x)*t", lambda: cls(x) * t, units.length * units.time), (f"{nm}({nm}(x)/t)", lambda: cls(cls(x) / t), units.length / units.time),
+                  (f"sqrt({nm}(x)**2)", lambda: sp.sqrt(cls(x)**2), units.length), (f"Abs({nm}(x)) + 2*x", lambda: sp.Abs(cls(x)) + 2 * x, units.length),
+                  # the statement lists no error for a dimensional function argument: inference accepts it, the result is dimensionless
+                  (f"sin({nm}(x))", lambda: sp.sin(cls(x)), sp.physics.units.Dimension(1))]
+        refuse = [(f"{nm}(x) + 1", lambda: cls(x) + 1), (f"{nm}(x) + t", lambda: cls(x) + t), (f"x**{nm}(t)", lambda: x**cls(t)),
+                  (f"{nm}({nm}(x) + t)", lambda: cls(cls(x) + t))]
+        for label, mk, want in accept:
+            try:
+                _e, d = infer(mk())
+                if not dimsys_SI.equivalent_dims(d, want):
+                    bad.append(f"{label}: inferred dimension {d}, expected {want}")
+            except Exception as ex:
+                bad.append(f"{label}: refused ({type(ex).__name__}: {str(ex)[:60]}), expected dimension {want}")
+        for label, mk in refuse:
+            try:
+                _e, d = infer(mk())
+                bad.append(f"{label}: accepted with dimension {d}; it is ill-formed (a {nm} of a length is a length)")
+            except Exception:
+                pass
     return bad
 
 
@@ -561,9 +587,9 @@ def concrete_specials(ctx):
              "Quantity(0 m)+t": (lambda: Quantity(0 * units.meter, display_symbol="a_zero") + t, "time")}
     wb = wrapper_history()
     if wb:
-        ctx.violation("C06:wrappers:look-alike operands share one instance", "; ".join(wb)[:600], REPLAY_WRAPPERS)
+        ctx.violation("C06:wrappers:own operand, own dimension, dimensioned leaf", "; ".join(wb)[:600], REPLAY_WRAPPERS)
     else:
-        ctx.ob("wrappers keep the dimension inferred from their own operand (look-alike operands, wrap flags)", "discharged", nontrivial=False)
+        ctx.ob("wrappers keep the dimension inferred from their own operand (look-alike operands, wrap flags) and count as dimensioned leaves of larger expressions", "discharged", nontrivial=False)
     def value_at(expr_):
         from sympy.physics.units import Quantity as SymQ
         v = sp.sympify(expr_)
